@@ -422,6 +422,8 @@ pub mod fastq {
     {
         if i <= 0 { p } else { c4(f, gstart(f, p, i - 1)) + 1 }
     }
+    /// the group at p (with its last terminator) needs more than cap bytes
+    pub open spec fn nofit(f: Seq<u8>, p: int, cap: int) -> bool { c4(f, p) - p >= cap }
     /// the first k groups from p are complete and valid records
     pub open spec fn run_ok(f: Seq<u8>, p: int, k: int) -> bool {
         forall|i: int| 0 <= i < k ==> group_complete(f, #[trigger] gstart(f, p, i)) && vok(f, gstart(f, p, i))
@@ -441,6 +443,58 @@ pub mod fastq {
         lemma_nl_bounds(b, s);
         assert(b == b2.subrange(0, b.len() as int));
         lemma_group_lift(b2, 0, b, s);
+    }
+
+    /// every collected position is a validated record of b; all are terminated, except possibly the last one
+    /// when the input ended without a final terminator (last_open)
+    #[verifier::opaque]
+    spec fn ps_valid(ps: Seq<BufferPosition>, b: Seq<u8>, last_open: bool) -> bool {
+        forall|i: int| 0 <= i < ps.len() ==> (#[trigger] ps[i]).valid(b) && (ps[i].pos.1 < b.len() || (i == ps.len() - 1 && last_open))
+    }
+    /// the i-th collected position shows the fields of the i-th group of the file counted from p0
+    #[verifier::opaque]
+    spec fn ps_lifted(ps: Seq<BufferPosition>, b: Seq<u8>, f: Seq<u8>, p0: int) -> bool {
+        forall|i: int| 0 <= i < ps.len() ==> recv(#[trigger] ps[i], b) == (g_head(f, gstart(f, p0, i)), g_seq(f, gstart(f, p0, i)), g_qual(f, gstart(f, p0, i)))
+    }
+    proof fn lemma_ps_empty(b: Seq<u8>, f: Seq<u8>, p0: int, open: bool)
+        ensures ps_valid(Seq::<BufferPosition>::empty(), b, open), ps_lifted(Seq::<BufferPosition>::empty(), b, f, p0), run_ok(f, p0, 0)
+    { reveal(ps_valid); reveal(ps_lifted); }
+    /// growing the buffer (no compaction) keeps the collected positions
+    proof fn lemma_ps_prefix(ps: Seq<BufferPosition>, b0: Seq<u8>, b: Seq<u8>, f: Seq<u8>, p0: int)
+        requires ps_valid(ps, b0, false), b0.len() <= b.len(), b.subrange(0, b0.len() as int) == b0
+        ensures ps_valid(ps, b, false), ps_lifted(ps, b0, f, p0) ==> ps_lifted(ps, b, f, p0)
+    {
+        reveal(ps_valid); reveal(ps_lifted);
+        assert forall|i: int| 0 <= i < ps.len() implies (#[trigger] ps[i]).valid(b) && ps[i].pos.1 < b.len() && recv(ps[i], b) == recv(ps[i], b0) by {
+            lemma_valid_prefix(b0, b, ps[i]);
+        }
+    }
+    /// one more record: the group at the cursor, found and validated in the buffer window [a, a+|b|) of f
+    proof fn lemma_ps_push(ps: Seq<BufferPosition>, bp: BufferPosition, b: Seq<u8>, a: int, f: Seq<u8>, p0: int, open: bool, lifted: bool)
+        requires ps_valid(ps, b, false), bp.valid(b), bp.pos.1 < b.len() || open,
+                 0 <= a, a + b.len() <= f.len(), b == f.subrange(a, a + b.len()),
+                 lifted ==> run_ok(f, p0, ps.len() as int) && ps_lifted(ps, b, f, p0) && a + bp.pos.0 == gstart(f, p0, ps.len() as int)
+                            && (bp.pos.1 < b.len() || a + b.len() == f.len()),
+        ensures ps_valid(ps.push(bp), b, open), bp.pos.0 <= bp.pos.1,
+                lifted ==> run_ok(f, p0, ps.len() as int + 1) && ps_lifted(ps.push(bp), b, f, p0) && gstart(f, p0, ps.len() as int + 1) == a + bp.pos.1 + 1,
+    {
+        reveal(ps_valid); reveal(ps_lifted);
+        let k = ps.len() as int;
+        let s = bp.pos.0 as int;
+        lemma_complete_facts(b, bp);
+        lemma_nl_bounds(b, s);
+        let ps2 = ps.push(bp);
+        assert forall|i: int| 0 <= i < ps2.len() implies (#[trigger] ps2[i]).valid(b) && (ps2[i].pos.1 < b.len() || (i == ps2.len() - 1 && open)) by {
+            if i < k { assert(ps2[i] == ps[i]); }
+        }
+        if lifted {
+            lemma_group_lift(f, a, b, s);
+            assert(gstart(f, p0, k + 1) == c4(f, gstart(f, p0, k)) + 1);
+            assert forall|i: int| 0 <= i < k + 1 implies group_complete(f, #[trigger] gstart(f, p0, i)) && vok(f, gstart(f, p0, i)) by { }
+            assert forall|i: int| 0 <= i < ps2.len() implies recv(#[trigger] ps2[i], b) == (g_head(f, gstart(f, p0, i)), g_seq(f, gstart(f, p0, i)), g_qual(f, gstart(f, p0, i))) by {
+                if i < k { assert(ps2[i] == ps[i]); }
+            }
+        }
     }
 
 //@impl_open fastq::BufferPosition::reset
@@ -758,7 +812,7 @@ pub mod fastq {
         ensures
             [C06,C14|fastq.init.frame] final(self).wf0() && final(self).f() == old(self).f() && final(self).buf_policy == old(self).buf_policy
                 && final(self).position == old(self).position && final(self).buf_pos == old(self).buf_pos && final(self).incomplete_pos is None
-                && final(self).base() == 0 && (r matches Ok(true) || final(self).wf()),
+                && final(self).base() == 0 && (r matches Ok(true) || final(self).wf()) && final(self).buf_reader.cap() == old(self).buf_reader.cap(),
             [C02,C14|fastq.init.ok] r matches Ok(more) ==> final(self).buf_reader.errs() == old(self).buf_reader.errs() && final(self).filled()
                 && (more ==> final(self).state == State::New && final(self).b().len() > 0)
                 && (!more ==> final(self).state == State::Finished && (!old(self).poisoned() ==> final(self).f().len() == 0)),
@@ -1196,18 +1250,13 @@ trait RecordD {
         &&& (n_records matches Some(m) ==> k <= m)
         &&& (self.state == State::Finished ==> k >= 1)
     }
-    spec fn rs_b(&self, rset: &RecordSet) -> bool {
-        let k = rset.n();
-        forall|i: int| 0 <= i < k ==> (#[trigger] rset.buf_positions@[i]).valid(self.b())
-                && (rset.buf_positions@[i].pos.1 < self.b().len() || (i == k - 1 && self.state == State::Finished))
-    }
+    spec fn rs_b(&self, rset: &RecordSet) -> bool { ps_valid(rset.buf_positions@, self.b(), self.state == State::Finished) }
     spec fn rs_c(&self, o: &Self, rset: &RecordSet) -> bool {
         let k = rset.n();
         let p0 = o.cursor();
         o.clean() && !o.poisoned() ==> {
                 &&& run_ok(self.f(), p0, k)
-                &&& (forall|i: int| 0 <= i < k ==> recv(#[trigger] rset.buf_positions@[i], self.b())
-                        == (g_head(self.f(), gstart(self.f(), p0, i)), g_seq(self.f(), gstart(self.f(), p0, i)), g_qual(self.f(), gstart(self.f(), p0, i))))
+                &&& ps_lifted(rset.buf_positions@, self.b(), self.f(), p0)
                 &&& (self.state == State::Positioned ==> self.gpos() == gstart(self.f(), p0, k))
                 &&& (self.state == State::Finished ==> end_ok(self.f(), gstart(self.f(), p0, k)))
             }
@@ -1234,6 +1283,10 @@ trait RecordD {
             [C05|fastq.read_set.position] r matches Some(Ok(_)) && old(self).clean() && !old(self).poisoned() && final(self).state != State::Finished ==>
                 final(self).position.byte == gstart(old(self).f(), old(self).cursor(), final(rset).n())
                 && final(self).position.line == true_line(old(self).f(), final(self).position.byte as int),
+            [C09|fastq.read_set.capacity_monotone] final(self).buf_reader.cap() >= old(self).buf_reader.cap(),
+            [C09|fastq.read_set.plain_sets_grow_only_when_a_record_does_not_fit] n_records is None && old(self).clean() && !old(self).poisoned()
+                && final(self).buf_reader.cap() > old(self).buf_reader.cap() ==>
+                exists|j: int| 0 <= j && #[trigger] nofit(old(self).f(), gstart(old(self).f(), old(self).cursor(), j), old(self).buf_reader.cap() as int),
             [C04,C06|fastq.read_set.none] r is None ==> final(self).buf_reader.errs() == old(self).buf_reader.errs() && final(self).state == State::Finished
                 && (old(self).state == State::Finished || old(self).poisoned() || !old(self).clean() || end_ok(old(self).f(), old(self).cursor())),
             [C06|fastq.read_set.err_terminal] r matches Some(Err(e)) ==>
@@ -1249,6 +1302,9 @@ trait RecordD {
             lemma_count_lf_mono(self.f(), 0, self.position.byte as int);
             if self.state == State::Parsing { lemma_advance(self.f(), self.base(), self.b(), self.buf_pos); }
         }
+//@before /let mut is_new = true;/
+        let ghost mut grow_at: int = -1;
+        proof { lemma_ps_empty(self.b(), self.f(), old(self).cursor(), self.state == State::Finished); assert(rset.buf_positions@ =~= Seq::<BufferPosition>::empty()); }
 //@loop 0 kw=while
             invariant_except_break
                 n_records matches Some(m) ==> rset.n() < m,
@@ -1258,6 +1314,9 @@ trait RecordD {
                 [C04,C06|fastq.read_set.inv.positions_valid] self.rs_b(rset),
                 [C04|fastq.read_set.inv.records_are_the_next_k] self.rs_c(old(self), rset),
                 n_records != Some(0usize), old(self).state != State::Finished,
+                [C09|fastq.read_set.inv.capacity] self.buf_reader.cap() >= old(self).buf_reader.cap() && (n_records is None ==> is_new)
+                    && (n_records is None && old(self).clean() && !old(self).poisoned() && self.buf_reader.cap() > old(self).buf_reader.cap() ==>
+                        0 <= grow_at && nofit(old(self).f(), gstart(old(self).f(), old(self).cursor(), grow_at), old(self).buf_reader.cap() as int)),
             ensures
                 [C04|fastq.read_set.loop_exit_nonempty] rset.n() >= 1,
                 [C04|fastq.read_set.loop_exit_exact_or_end] n_records matches Some(m) ==> rset.n() == m || self.state == State::Finished,
@@ -1267,6 +1326,7 @@ trait RecordD {
 //@before /if let Some\(pos\) = self\.incomplete_pos\.take\(\)/
             let ghost b0 = self.b();
             let ghost k0 = rset.n();
+            let ghost cap_before = self.buf_reader.cap();
             proof {
                 lemma_count_lf_mono(self.f(), 0, self.position.byte as int);
                 let (ff, a, bb, s) = (self.f(), self.base(), self.b(), self.buf_pos.pos.0 as int);
@@ -1275,6 +1335,12 @@ trait RecordD {
             }
 //@before /rset\.buf_positions\.clear\(\);\s*return Some\(Err\(e\)\);/ nth=0
                         proof {
+                            if self.buf_reader.cap() > cap_before {
+                                grow_at = k0;
+                                if n_records is None && old(self).clean() && !old(self).poisoned() {
+                                    assert(nofit(old(self).f(), gstart(old(self).f(), old(self).cursor(), k0), old(self).buf_reader.cap() as int));
+                                }
+                            }
                             let (ff, p0) = (old(self).f(), old(self).cursor());
                             if old(self).clean() && !old(self).poisoned() && fmt_variant(e) {
                                 assert(run_ok(ff, p0, k0) && fmt_err(e, ff, gstart(ff, p0, k0), true_line(ff, gstart(ff, p0, k0))));
@@ -1287,38 +1353,43 @@ trait RecordD {
                                 assert(run_ok(ff, p0, k0) && fmt_err(e, ff, gstart(ff, p0, k0), true_line(ff, gstart(ff, p0, k0))));
                             }
                         }
+//@after /Ok\(true\) => \{/
+                        proof { if self.buf_reader.cap() > cap_before {
+                                grow_at = k0;
+                                if n_records is None && old(self).clean() && !old(self).poisoned() {
+                                    assert(nofit(old(self).f(), gstart(old(self).f(), old(self).cursor(), k0), old(self).buf_reader.cap() as int));
+                                }
+                            } }
+//@after /Ok\(false\) => \{/
+                        proof {
+                            if self.buf_reader.cap() > cap_before {
+                                grow_at = k0;
+                                if n_records is None && old(self).clean() && !old(self).poisoned() {
+                                    assert(nofit(old(self).f(), gstart(old(self).f(), old(self).cursor(), k0), old(self).buf_reader.cap() as int));
+                                }
+                            }
+                        }
 //@before /break;/ nth=0
                         proof {
-                            let bb = self.b();
-                            assert(bb.subrange(0, b0.len() as int) =~= b0);
-                            assert(k0 > 0);
-                            assert forall|i: int| 0 <= i < k0 implies (#[trigger] rset.buf_positions@[i]).valid(bb) && rset.buf_positions@[i].pos.1 < bb.len()
-                                && recv(rset.buf_positions@[i], bb) == recv(rset.buf_positions@[i], b0) by {
-                                lemma_valid_prefix(b0, bb, rset.buf_positions@[i]);
-                            }
+                            lemma_ps_prefix(rset.buf_positions@, b0, self.b(), self.f(), old(self).cursor());
+                            reveal(ps_valid);
                         }
 //@before /rset\.buf_positions\.push\(self\.buf_pos\.clone\(\)\);/
             proof {
-                let (ff, a, bb, s) = (self.f(), self.base(), self.b(), self.buf_pos.pos.0 as int);
-                let p0 = old(self).cursor();
-                lemma_complete_facts(bb, self.buf_pos);
-                lemma_nl_bounds(bb, s);
-                // earlier positions survive the growth of the buffer (no compaction once k > 0)
                 if k0 > 0 {
-                    assert(bb.subrange(0, b0.len() as int) =~= b0);
-                    assert forall|i: int| 0 <= i < k0 implies (#[trigger] rset.buf_positions@[i]).valid(bb) && rset.buf_positions@[i].pos.1 < bb.len()
-                        && recv(rset.buf_positions@[i], bb) == recv(rset.buf_positions@[i], b0) by {
-                        lemma_valid_prefix(b0, bb, rset.buf_positions@[i]);
-                    }
+                    assert(self.b().subrange(0, b0.len() as int) =~= b0);
+                    lemma_ps_prefix(rset.buf_positions@, b0, self.b(), self.f(), old(self).cursor());
+                } else {
+                    lemma_ps_empty(self.b(), self.f(), old(self).cursor(), false);
+                    assert(rset.buf_positions@ =~= Seq::<BufferPosition>::empty());
                 }
-                if self.buf_pos.pos.1 < bb.len() { lemma_advance(ff, a, bb, self.buf_pos); }
-                if self.buf_pos.pos.1 < bb.len() || self.clean() {
-                    lemma_group_lift(ff, a, bb, s);
-                    assert(gstart(ff, p0, k0 + 1) == c4(ff, gstart(ff, p0, k0)) + 1);
-                }
+                lemma_complete_facts(self.b(), self.buf_pos);
+                lemma_ps_push(rset.buf_positions@, self.buf_pos, self.b(), self.base(), self.f(), old(self).cursor(),
+                              self.state == State::Finished, old(self).clean() && !old(self).poisoned());
+                if self.buf_pos.pos.1 < self.b().len() { lemma_advance(self.f(), self.base(), self.b(), self.buf_pos); }
             }
 //@before /rset\.buffer\.clear\(\);/
-        proof { broadcast use axiom_ref_items_slice; }
+        proof { broadcast use axiom_ref_items_slice; reveal(ps_valid); reveal(ps_lifted); }
 //@end
 
 //@fn fastq::Reader::read_record_set ret=r tags=C04,C09
